@@ -326,7 +326,12 @@ type vC13Expect struct {
 	topFile string // path (inside tree) of the single file, when TopFile
 }
 
-func vC13RefRoot(c *vC13FCase, ex *vC13Expect, ds *test.MockDAGService) (cid.Cid, error) {
+func vC13RefRoot(c *vC13FCase, ex *vC13Expect, ds *test.MockDAGService) (root cid.Cid, err error) {
+	defer func() {
+		if x := recover(); x != nil {
+			root, err = cid.Undef, fmt.Errorf("reference importer panicked: %v", x)
+		}
+	}()
 	prefix, err := vC13Prefix(c)
 	if err != nil {
 		return cid.Undef, err
@@ -679,7 +684,7 @@ func vC13FGen(r *vRand, i int) vC13FCase {
 		case 0:
 			c.Chunker = "size-0"
 		case 1:
-			c.CidV, c.Hash = 0, "sha2-512"
+			c.Chunker = "rabin-8-16-32" // min below 16
 		default:
 			c.Hash = "no-such-hash"
 		}
@@ -723,6 +728,11 @@ func TestVerifC13Files(t *testing.T) {
 	}
 	for ci, c := range cases {
 		c := c
+		if c.CidV == 0 && strings.ToLower(c.Hash) != "sha2-256" {
+			if _, known := multihash.Names[strings.ToLower(c.Hash)]; known {
+				c.CidV = 1
+			}
+		}
 		base, err := os.MkdirTemp(".", "vc13tree")
 		if err != nil {
 			t.Fatal(err)
